@@ -5,7 +5,7 @@
 # with `git -C /repo apply` + ./check as usual.
 set -e
 PATCH="$(realpath "$1")"; ID="$2"; TIER="${3:-quick}"; SEED="${4:-1}"
-WT=/tmp/lead-wt; H=/tmp/lead-h; T=/tmp/lead-t; R=/tmp/lead-root
+P="${TP_PREFIX:-/tmp/lead}"; WT=$P-wt; H=$P-h; T=$P-t; R=$P-root
 if [ ! -d $WT ]; then git -C /repo worktree add --detach $WT >/dev/null; fi
 git -C $WT checkout -q --detach "$(git -C /repo rev-parse HEAD)"; git -C $WT checkout -- .; git -C $WT clean -fdq
 git -C $WT apply "$PATCH"
